@@ -74,6 +74,9 @@ def cases(tier, seed):
                     if world.feasible(c):
                         out.append(("S-dag%s/%s" % ("2" if two else "1",
                                                     alg["kind"]), c))
+    for sc, c in common.add_algs(common.ids_scope(tier),
+                                 lambda c: common.shipped(c, tier, "diag")):
+        out.append((sc, c))
     return common.rotate(out, seed)
 
 
@@ -90,7 +93,7 @@ def run(rep, tier, seed):
         for k, (sc, c) in enumerate(cs):
             if not common.keep(k, 3):
                 c = dict(c)
-                c.pop("delay")
+                c.pop("delay", None)
             cs2.append((sc, c))
         cs = cs2
     e1.sweep(rep, cs, monitors_for, budgets)
